@@ -200,7 +200,7 @@ func (r *rewriter) file(f *ast.File) {
 				}
 			}
 			switch se.Sel.Name {
-			case "Mutex", "RWMutex", "WaitGroup":
+			case "Mutex", "RWMutex", "WaitGroup", "Once", "Cond", "NewCond":
 				se.X = ast.NewIdent("simrt")
 				r.st.syncs++
 			}
